@@ -544,3 +544,55 @@ def rule_type_census(ctx, which):
                 ctx.bad(rid, "handle-public-field:" + ",".join(pub), "AllocHandle has public fields %s: the recorded amount can be edited or a handle forged" % pub)
             else:
                 ctx.ok(rid, "handle-fields-private", "all fields restricted", nontrivial=True)
+
+
+SAME_ALIGN = {("f32", "i32"), ("i32", "f32"), ("u32", "f32"), ("f32", "u32"), ("i32", "u32"), ("u32", "i32")}
+
+
+def rule_cast_align(ctx):
+    """a grid view is re-typed to a stricter-aligned element type only behind an alignment test on that type"""
+    rid = "R-CAST-ALIGN"
+    ctx.rule(rid, "the view types of jxl-grid hand out `&V` / `&mut V` through safe accessors, so re-typing a view's base pointer "
+                  "(NonNull::cast / pointer casts to another pointee) is only sound when the address is aligned for the new element "
+                  "type.  For every such cast in jxl_grid whose target is not a type of the same alignment (f32 <-> i32 / u32) and not "
+                  "the unit type used for type erasure: the function (or the function that creates the closure doing the cast) calls "
+                  "align_of::<Target>() - today `ptr as usize & (align_of::<V>() - 1) == 0` - or is_aligned() on a pointer that already "
+                  "has the target pointee.  An alignment test on the source pointee (always true) does not count")
+    g = ctx.prog.crate("jxl_grid")
+    n = 0
+    for f in g.fn_list:
+        if f.kind == "Promoted":
+            continue
+        for b, t in f.calls():
+            c = callee(t)
+            if not (c and (c["fn"].endswith("NonNull::<T>::cast") or c["fn"].endswith("::cast") and "ptr::" in c["fn"]) and len(c.get("args", [])) == 2):
+                continue
+            src, dst = c["args"]
+            if dst == "()" or src == dst or (src, dst) in SAME_ALIGN:
+                continue
+            n += 1
+            # the function itself, and (for a closure) the function that creates it
+            owners = [f]
+            if "::{closure" in f.path:
+                o = g.fns.get(f.path[:f.path.index("::{closure")])
+                if o is not None:
+                    owners.append(o)
+            ok = False
+            for o in owners:
+                ctx.seen(o)
+                for _, t2 in o.calls():
+                    c2 = callee(t2)
+                    if not c2:
+                        continue
+                    if c2["fn"] == "core::mem::align_of" and c2.get("args") == [dst]:
+                        ok = True
+                    if c2["fn"].endswith("::is_aligned") and c2.get("args") and c2["args"][0] == dst:
+                        ok = True
+            key = "%s|%s->%s" % (f.path.split("::{closure")[0], src, dst)
+            if ok:
+                ctx.ok(rid, key, "alignment of the target type is tested", nontrivial=True, fn=f)
+            else:
+                ctx.bad(rid, key, "the view is re-typed from %s to %s without a test of the address against align_of::<%s>(): safe accessors "
+                        "would hand out misaligned references" % (src, dst, dst), fn=f, pos=t[-2])
+    ctx.count(rid + ".casts", n)
+    ctx.floor(rid + ".casts", 2)
